@@ -1,10 +1,10 @@
 """C03 -- re-serializing ABIXML is a byte-exact fixpoint: abilint D reproduces D, abilint --diff D exits 0."""
-import os
+import os, re
 import vf, campaign
 
 # Reading (DESIGN.md section 6, C03): abilint has no switch for --annotate, --type-id-style hash or --no-write-default-sizes, so it cannot
-# reproduce documents written with them; the fixpoint is demanded for abidw's default rendering and the options that only *omit* information.
-DOCOPTS = [[], ["--no-show-locs"], ["--no-corpus-path", "--no-parameter-names"], ["--load-all-types"], ["--no-comp-dir-path", "--no-elf-needed"],
+# reproduce documents written with them (nor --load-all-types: abilint does not track non-reachable types); the fixpoint is demanded for abidw's default rendering and the options that only *omit* information.
+DOCOPTS = [[], ["--no-show-locs"], ["--no-corpus-path", "--no-parameter-names"], ["--no-comp-dir-path", "--no-elf-needed"],
            ["--short-locs"], ["--no-architecture"]]
 
 
@@ -34,7 +34,13 @@ def main():
             # i.e. documents in abidw's default rendering (options that change the rendering are replayed through abidw-independent checks)
             rl = vf.run([abilint, abi], env=env, binary=True)
             rd = vf.run([abilint, "--diff", abi], env=env)
+            # observations used only to *classify* a failing case (known finding C03-void-type-position): second round, ids masked
+            abi2 = abi + ".2"
+            open(abi2, "wb").write(rl.out)
+            rl2 = vf.run([abilint, abi2], env=env, binary=True)
+            mask = lambda b: sorted(re.sub(rb"type-id-\d+", b"type-id-N", ln) for ln in b.splitlines())
             evs.append({"e": "Fixpoint", "case": idx, "comp": comp, "style": sn, "opts": " ".join(o), "h1": vf.sha(doc), "h2": vf.sha(rl.out),
+                        "h3": vf.sha(rl2.out), "hasVoid": b"<type-decl name='void'" in doc, "sameLinesModuloIds": mask(doc) == mask(rl.out),
                         "len1": len(doc), "len2": len(rl.out), "lintexit": rl.exit, "diffexit": rd.exit, "ret": campaign.retof(rl, rd),
                         "diffout": rd.out[:300]})
         return evs
